@@ -50,7 +50,11 @@ func resolveStruct(rv reflect.Value, fieldName string) (any, bool) {
 		if !f.IsExported() {
 			return nil, false
 		}
-		fv := rv.FieldByIndex(f.Index)
+		// a promoted field behind a nil embedded pointer does not exist
+		fv, err := rv.FieldByIndexErr(f.Index)
+		if err != nil {
+			return nil, false
+		}
 		return fv.Interface(), true
 	}
 
@@ -65,7 +69,10 @@ func resolveStruct(rv reflect.Value, fieldName string) (any, bool) {
 		// Parse the JSON tag, stripping options (e.g., "user_id,omitempty" -> "user_id")
 		tagName := strings.Split(tag, ",")[0]
 		if tagName == fieldName {
-			fv := rv.FieldByIndex(f.Index)
+			fv, err := rv.FieldByIndexErr(f.Index)
+			if err != nil {
+				return nil, false
+			}
 			return fv.Interface(), true
 		}
 	}
@@ -73,9 +80,35 @@ func resolveStruct(rv reflect.Value, fieldName string) (any, bool) {
 	return nil, false
 }
 
-// resolveMap handles map access by string key.
+// resolveMap handles map access by key. The key is the path segment, converted to the key type of
+// the map: a string kind (also a named one), an integer kind, or any; a map with another key type
+// has no key that a path segment could name.
 func resolveMap(rv reflect.Value, key string) (any, bool) {
-	mapKey := reflect.ValueOf(key)
+	keyType := rv.Type().Key()
+	mapKey := reflect.New(keyType).Elem()
+	switch keyType.Kind() {
+	case reflect.String:
+		mapKey.SetString(key)
+	case reflect.Interface:
+		if keyType.NumMethod() != 0 {
+			return nil, false
+		}
+		mapKey.Set(reflect.ValueOf(key))
+	case reflect.Int, reflect.Int8, reflect.Int16, reflect.Int32, reflect.Int64:
+		n, err := strconv.ParseInt(key, 10, keyType.Bits())
+		if err != nil {
+			return nil, false
+		}
+		mapKey.SetInt(n)
+	case reflect.Uint, reflect.Uint8, reflect.Uint16, reflect.Uint32, reflect.Uint64, reflect.Uintptr:
+		n, err := strconv.ParseUint(key, 10, keyType.Bits())
+		if err != nil {
+			return nil, false
+		}
+		mapKey.SetUint(n)
+	default:
+		return nil, false
+	}
 	v := rv.MapIndex(mapKey)
 	if !v.IsValid() {
 		return nil, false
